@@ -100,6 +100,8 @@ func checkC18(c *Ctx) {
 		"B-LOOP: every loop and every recursive call in that closure has a ranking argument (a measure that strictly progresses towards a loop-invariant bound)")
 	c.NotDec = append(c.NotDec, "time and memory inside encoding/asn1, encoding/pem, math/big and the hash/cipher primitives", "stack depth of the BER recursion in absolute terms (it is bounded by half the input length)")
 	getFX(c)
+	lbOvfMode = true
+	defer func() { lbOvfMode = false }()
 	scope := c18Scope(c)
 	c.Notes = append(c.Notes, fmt.Sprintf("decoder closure: %d functions", len(scope)))
 	if len(scope) < 60 {
@@ -116,6 +118,7 @@ func checkC18(c *Ctx) {
 		"B-IDX|pkcs12.decodeBMPString|index ?phi1[1] #1":                                                                            "the length is checked to be even at entry and the loop consumes two bytes per iteration, so len > 0 implies len >= 2 (a parity invariant, outside the linear prover)",
 		"B-IDX|pkcs12.SM2P12Decrypt|index extract1(call:pkcs12.DecodeAll(extract0(call:io/ioutil.ReadFile(fileName)),pwd))[0] #1":   "DecodeAll returns a nil error only with certificate != nil, and certificate is only ever extended by append of one parsed certificate (an inter-procedural loop invariant, outside the linear prover)",
 		"B-IDX|sm2.kdf|index ?phi1[?phi2] #1":                                                                                       "c is the concatenation of ceil(length/32) digests with the last one truncated, exactly `length` bytes (checked as K-C02-kdf under C02); the scan index stays below length (a sum over a loop with a conditional last step, outside the linear prover)",
+		"B-IDX|sm2.kdf|slice call:invoke hash.Hash.Sum(const:nil:[]byte)[:rem(length,0x20)] #1":                                     "reached only with i+1 == (length+31)/32 >= 1, i.e. length >= 1, so length%32 is in 1..31 and the digest has 32 bytes; the prover cannot use this because in overflow mode length+31 is not linear for an unbounded int parameter (KeyExchange hands kdf a caller-chosen klen); every decoder call site passes a slice length",
 		"B-IDX|x509.pbkdf|slice ?phi1[:keyLen] #1":                                                                                  "dk has capacity numBlocks*hashLen with numBlocks = ceil(keyLen/hashLen), a product of two variables (outside the linear prover); keyLen is a constant of the PBES2 parameters at the call sites",
 	}
 	st := bidx(c, "B-IDX", scope, exempt)
@@ -455,7 +458,7 @@ func c18Pre(c *Ctx, scope []*ssa.Function) {
 func c18Div(c *Ctx, scope []*ssa.Function) {
 	n := 0
 	for _, f := range scope {
-		lb := &LB{p: c.P, f: f, UsedContracts: map[string]bool{}}
+		lb := &LB{p: c.P, f: f, UsedContracts: map[string]bool{}, ovf: lbOvfMode}
 		cfacts, _ := callerFacts(c.P, f)
 		lb.extra = cfacts
 		ord := 0
